@@ -391,7 +391,16 @@ def main(argv=None):
     unknown = [o for o in obligations.values() if o["status"] == "unknown"]
     refuted_known = [o for o in refuted if o["oid"] in known_ids]
     refuted_new = [o for o in refuted if o["oid"] not in known_ids]
-    missing = [oid for oid in baseline if oid not in obligations]
+    # an obligation of the baseline that is not generated any more means the contracts no longer
+    # match the code (undecided) - except `raises:escapes[X]` obligations that were discharged there:
+    # they exist only while an (infeasible) path raising X is explored at all
+    errored = {r["key"] for r in results if r["error"]}
+    missing = [
+        oid for oid in baseline
+        if oid not in obligations
+        and not (":raises:escapes[" in oid and baseline[oid] == "discharged")
+        and not any(k in oid for k in errored)
+    ]
     # a known finding whose obligation now discharges is fine (fixed); nothing to report
 
     violations = []
